@@ -918,10 +918,13 @@ class Unit:
 
     def __rtruediv__(self, other: Any) -> Quantity:
         """other / self"""
-        if isinstance(other, Rational):
-            return other * self ** -1
-        if isinstance(other, Real):
-            return Decimal(other) * self ** -1
+        if isinstance(other, (Rational, Real)):
+            if not isinstance(other, Rational):
+                other = Decimal(other)
+            # The resulting quantity may get quantized. Therefore we
+            # have to calculate the final amount before creating the result!
+            amnt, unit = _reciprocal_amnt_and_unit(self)
+            return (other * amnt) * unit
         return NotImplemented
 
     def __pow__(self, exp: Any) -> Union[Quantity, Rational]:
@@ -1730,10 +1733,13 @@ class Quantity(metaclass=QuantityMeta):
 
     def __rtruediv__(self, other: Any) -> Quantity:
         """other / self"""
-        if isinstance(other, Rational):
-            return (other / self.amount) * self.unit ** -1
-        if isinstance(other, Real):
-            return (other / Decimal(self.amount)) * self.unit ** -1
+        if isinstance(other, (Rational, Real)):
+            if not isinstance(other, Rational):
+                other = Decimal(other)
+            # The resulting quantity may get quantized. Therefore we
+            # have to calculate the final amount before creating the result!
+            amnt, unit = _reciprocal_amnt_and_unit(self.unit)
+            return (other / self.amount * amnt) * unit
         return NotImplemented
 
     def __pow__(self, exp: int) -> Quantity:
@@ -1817,6 +1823,17 @@ def _amnt_and_unit_from_term(term: UnitDefT) -> AmountUnitTupleT:
         else:
             raise
     return num, res_unit
+
+
+def _reciprocal_amnt_and_unit(unit: Unit) -> Tuple[Rational, Unit]:
+    res_def = UnitDefT(((unit, -1),))
+    try:
+        amnt, res_unit = _amnt_and_unit_from_term(res_def)
+    except KeyError:
+        raise UndefinedResultError(operator.pow, unit.qty_cls.__name__, -1) \
+            from None
+    assert res_unit is not None
+    return amnt, res_unit
 
 
 def _qty_from_term(term: UnitDefT) -> BinOpResT:
